@@ -48,7 +48,10 @@ CONSTANTS NC,            \* callers 1..NC
           RegisterFirst, \* TRUE as coded: pending insert before the call is sent
           AtomicAlloc,   \* TRUE as coded: the id is the value returned by ONE atomic add
           IdDecode,      \* "strict" as coded | "unquote": a JSON string that looks like a number decodes as that number
-          IdVocab        \* "full" | "small": how many confusable ids the peer may choose from (bounds the state space only)
+          IdVocab,       \* "full" | "small": how many confusable ids the peer may choose from (bounds the state space only)
+          KindShift,     \* which kind of result each response carries: the answer to marker m has kind KindAt(KindShift, m)
+          NullResult     \* "ok" as coded: "result":null is a successful response | "rejected": DecodeMessage demands
+                         \* "exactly one of result / error" and takes the null for an absent member -- stream.Read fails
 
 Callers   == 1..NC
 Notifiers == 11..(10 + NN)
@@ -59,6 +62,16 @@ CANCEL    == -1                     \* result values: a caller's marker = "the r
 WERR      == -2
 NORES     == 0
 STRAY     == 99                     \* marker of a response the peer sent without a request
+
+-----------------------------------------------------------------------------
+(* result kinds: a successful response carries a JSON value of any kind -- null is the answer to every void
+   request (reply(ctx, nil, nil), LSP shutdown) --, an error response an error object with or without data.
+   Which kind the answer to a request has is fixed per request (by its marker), so it adds no state. *)
+ResKindSeq == <<"null", "object", "errdata", "array", "number", "true", "false", "string", "error">>
+KindAt(s, m) == IF m = STRAY \/ m < 1 THEN "string" ELSE ResKindSeq[((m - 1 + s) % Len(ResKindSeq)) + 1]
+ResKind(m) == KindAt(KindShift, m)
+\* DecodeMessage on the response to marker m
+Decodable(m) == ~(NullResult = "rejected" /\ ResKind(m) = "null")
 
 -----------------------------------------------------------------------------
 (* typed ids *)
@@ -104,6 +117,7 @@ vars == <<pc, cancelled, werr, result, seq, idOf, pending, chan, mu, open, wireB
 
 MyId(c) == NumId(idOf[c])
 Msg(t, id, tok) == [t |-> t, id |-> id, tok |-> tok]
+RdFailed == [pc |-> "failed", wid |-> NoId, id |-> NoId, tok |-> 0, to |-> 0]   \* stream.Read returned an error: run has called fail and returned
 RdIdle == [pc |-> "read", wid |-> NoId, id |-> NoId, tok |-> 0, to |-> 0]
 PendIds == {p.id : p \in pending}
 Owner(id) == (CHOOSE p \in pending : p.id = id).c
@@ -220,7 +234,8 @@ DeletePending(c) == /\ c \in Callers /\ pc[c] = "del"
 ReaderTake == /\ rd.pc = "read" /\ inq # <<>>
               /\ inq' = Tail(inq)
               /\ LET m == Head(inq) IN
-                 CASE m.t = "resp"  -> rd' = [pc |-> "lookup", wid |-> m.id, id |-> DecId(m.id), tok |-> m.tok, to |-> 0] /\ pc' = pc
+                 CASE m.t = "resp" /\ ~Decodable(m.tok) -> rd' = RdFailed /\ pc' = pc    \* the connection is dead from here on
+                   [] m.t = "resp"  -> rd' = [pc |-> "lookup", wid |-> m.id, id |-> DecId(m.id), tok |-> m.tok, to |-> 0] /\ pc' = pc
                    [] m.t = "notif" -> rd' = rd /\ pc' = pc
                    [] OTHER         -> rd' = [pc |-> "handle", wid |-> m.id, id |-> DecId(m.id), tok |-> 0, to |-> 0] /\ pc' = [pc EXCEPT ![Rd] = "want"]
               /\ UNCHANGED <<cancelled, werr, result, seq, idOf, pending, chan, mu, open, wireBad, got, replied, pn, strays, pcallIds, pongs>>
@@ -352,6 +367,9 @@ MutexOK == UseWriteMu => Cardinality({w \in Writers : pc[w] \in {"hdr", "body", 
 ReaderNeverBlocks == rd.pc = "send" =>
     \/ CanSend(rd.to)
     \/ ChanCap = 0 /\ pc[rd.to] \in {"reg", "hdr", "body", "rel", "late"}
+
+\* the run loop survives every response the peer may send (each result kind, each error shape)
+ReaderAlive == rd.pc # "failed"
 
 \* pending holds exactly the calls in flight (as coded: registered before sending, removed on return)
 PendingExact == RegisterFirst => {p.c : p \in pending} = {c \in Callers : pc[c] \in InFlight}
